@@ -108,6 +108,9 @@ mod fmt;
 mod macros;
 mod swap;
 
+#[cfg(feature = "verif-hooks")]
+pub mod verif_hooks;
+
 /// [`Matrix<T>`] means matrix.
 #[derive(Clone)]
 pub struct Matrix<T> {
